@@ -16,7 +16,7 @@ def make_lin(ix):
                 if r.get("k") == "Local":
                     d = canon.defs.get(r["lid"])
                     if d and d[0] == "let" and not d[2] and not d[3] and canon._simple(d[1]) and \
-                            not canon._mutated_between(d[1], d[1]["sp"][1], r):
+                            canon.snapshot_free(r["lid"], d):
                         r = hq.peel(d[1])
                         continue
                 if r.get("k") == "AddrOf":
@@ -112,7 +112,11 @@ def check_sites(ctx, rule, fn_path, ranges_only=True, table=None, only=None, ass
         if only is not None and not only(site):
             continue
         basec = ix.canon(site["e"])
-        k0 = "%s::%s[%s]" % (H.short(fn_path), H.show(site["e"])[-50:], H.show(site["idx"])[-50:])
+        H.PRETTY_RANGES = True
+        try:
+            k0 = "%s::%s[%s]" % (H.short(fn_path), H.show(site["e"])[-40:], H.show(site["idx"])[:60])
+        finally:
+            H.PRETTY_RANGES = False
         seen[k0] = seen.get(k0, 0) + 1
         key = k0 if seen[k0] == 1 else "%s#%d" % (k0, seen[k0])
         n += 1
